@@ -370,9 +370,16 @@ class SFTPFile(BufferedFile):
         self.sftp._log(
             DEBUG, "truncate({}, {!r})".format(hexlify(self.handle), size)
         )
+        # like Python files: pending writes go out first, read-ahead is stale
+        # afterwards, and the position is unchanged.
+        self.flush()
+        self._realpos = self._pos
+        self._rbuffer = bytes()
         attr = SFTPAttributes()
         attr.st_size = size
         self.sftp._request(CMD_FSETSTAT, self.handle, attr)
+        if self._flags & self.FLAG_APPEND:
+            self._size = size
 
     def check(self, hash_algorithm, offset=0, length=0, block_size=0):
         """
